@@ -4,8 +4,8 @@ from runner import Job
 
 def main(tier, seed, t0, only=None):
     q = tier == 'quick'
-    plan = [(1, 3, 0, 0, 2), (1, 3, 0, 1, 2), (2, 0, 0, 3, 8), (2, 0, 0, 2, 8), (2, 0, 0, 0, 16), (2, 1, 0, 0, 8), (2, 2, 0, 0, 16), (2, 2, 0, 1, 16), (1, 3, 17, 0, 2)]
-    if not q: plan += [(3, 0, 0, 0, 16), (3, 2, 0, 0, 16), (2, 3, 0, 0, 16), (2, 3, 0, 1, 16), (2, 0, 17, 0, 16)]
+    plan = [(1, 3, 0, 0, 2), (1, 3, 0, 1, 2), (1, 3, 0, 3, 2), (1, 3, 0, 2, 2), (2, 0, 0, 0, 16), (2, 1, 0, 0, 8), (2, 2, 0, 0, 16), (1, 3, 17, 0, 2)]
+    if not q: plan += [(2, 0, 0, 3, 16), (2, 0, 0, 2, 16), (2, 2, 0, 1, 16), (3, 0, 0, 0, 16), (3, 2, 0, 0, 16), (2, 3, 0, 0, 16), (2, 3, 0, 1, 16), (2, 0, 17, 0, 16)]
     J = domfam.jobs('C13', 3, tier, defines=('ALLOC_SIMPLE',), plan=plan)
     # reparse histories (valid and invalid text, reuse, destroy) with the freeing allocator: the C02 executions with the heap ledger
     import parsefam
